@@ -195,15 +195,122 @@ pub fn run_c10(ctx: &mut Ctx) {
     }
     ctx.rng_state = None;
     mon::idle();
+    // argument sweep: every argument-taking operation with (a) every byte string of length 0-2, (b) every string of
+    // length 3 (thorough: and 4) over the 19 class-boundary bytes, (c) every single-byte substitution (256 values at
+    // every position) of one valid word of every class and length - as a one-step history from an empty and from a
+    // fully populated value. The pools of the histories above hold a few dozen hand-picked invalid arguments; a
+    // validator that is wrong for one byte value, or only at one position, needs the whole byte range at that position.
+    {
+        const BOUNDARY: &[u8] = b"azAZ09@[`{/:-_ \x00\x7f\x80\xff";
+        let mut args: Vec<Vec<u8>> = vec![vec![]];
+        for a in 0..=255u8 {
+            args.push(vec![a]);
+        }
+        for a in 0..=255u8 {
+            for b in 0..=255u8 {
+                args.push(vec![a, b]);
+            }
+        }
+        for a in BOUNDARY {
+            for b in BOUNDARY {
+                for c in BOUNDARY {
+                    args.push(vec![*a, *b, *c]);
+                    if !quick {
+                        for d in BOUNDARY {
+                            args.push(vec![*a, *b, *c, *d]);
+                        }
+                    }
+                }
+            }
+        }
+        for w in ["en", "abc", "abcde", "abcdefgh", "Latn", "US", "001", "macos", "1996", "12345678", "ca", "k0", "h12", "foobar", "true", "a", "zz1", "de-Latn-AT-1996"] {
+            for i in 0..w.len() {
+                for x in 0..=255u8 {
+                    let mut v = w.as_bytes().to_vec();
+                    v[i] = x;
+                    args.push(v);
+                }
+            }
+        }
+        let abc = || b"abc".to_vec();
+        let kinds: Vec<(&'static str, Box<dyn Fn(Vec<u8>) -> Op>)> = vec![
+            ("set_language", Box::new(Op::SetLanguage)),
+            ("set_script", Box::new(|a| Op::SetScript(Some(a)))),
+            ("set_region", Box::new(|a| Op::SetRegion(Some(a)))),
+            ("set_variants[a]", Box::new(|a| Op::SetVariants(vec![a]))),
+            ("set_variants[valid,a]", Box::new(|a| Op::SetVariants(vec![b"valencia".to_vec(), a]))),
+            ("set_keyword(a,[abc])", Box::new(move |a| Op::SetKeyword(a, vec![abc()]))),
+            ("set_keyword(ca,[a])", Box::new(|a| Op::SetKeyword(b"ca".to_vec(), vec![a]))),
+            ("set_keyword(ca,[abc,a])", Box::new(move |a| Op::SetKeyword(b"ca".to_vec(), vec![abc(), a]))),
+            ("remove_keyword", Box::new(Op::RemoveKeyword)),
+            ("set_attribute", Box::new(Op::SetAttribute)),
+            ("remove_attribute", Box::new(Op::RemoveAttribute)),
+            ("set_tlang", Box::new(Op::SetTlang)),
+            ("set_tfield(a,[abc])", Box::new(move |a| Op::SetTfield(a, vec![abc()]))),
+            ("set_tfield(k0,[a])", Box::new(|a| Op::SetTfield(b"k0".to_vec(), vec![a]))),
+            ("set_tfield(k0,[abc,a])", Box::new(move |a| Op::SetTfield(b"k0".to_vec(), vec![abc(), a]))),
+            ("remove_tfield", Box::new(Op::RemoveTfield)),
+            ("add_tag", Box::new(Op::AddTag)),
+            ("remove_tag", Box::new(Op::RemoveTag)),
+            ("keyword?", Box::new(Op::QKeyword)),
+            ("has_attribute?", Box::new(Op::QHasAttribute)),
+            ("tfield?", Box::new(Op::QTfield)),
+            ("has_tag?", Box::new(Op::QHasTag)),
+            ("has_variant?", Box::new(Op::QHasVariant)),
+        ];
+        let starts = ["und", "en-Latn-US-macos-valencia-u-foo-ca-buddhist-nu-thai-t-de-k0-dvorak-x-priv-zz1"];
+        let mut prepared: Vec<(&str, Locale, Loc)> = vec![];
+        for st in starts {
+            match st.parse::<Locale>() {
+                Ok(l) => {
+                    let m = obs_loc(&l);
+                    prepared.push((st, l, m));
+                }
+                Err(_) => ctx.count("setup: start value rejected by the library (argument sweep skipped for it)"),
+            }
+        }
+        let (mut n_ok, mut n_err, mut n_steps) = (0u64, 0u64, 0u64);
+        for (ai, a) in args.iter().enumerate() {
+            if ai % ctx.nshards != ctx.shard {
+                continue;
+            }
+            for (kname, mk) in kinds.iter() {
+                let op = mk(a.clone());
+                for (st, l0, m0) in prepared.iter() {
+                    let (mut l, mut m) = (l0.clone(), m0.clone());
+                    mon::begin_case(a);
+                    let (ret, fails) = model::step(&mut l, &mut m, &op, Some(&likely));
+                    n_steps += 1;
+                    match ret {
+                        model::Ret::Err => n_err += 1,
+                        _ => n_ok += 1,
+                    }
+                    if a.len() <= 3 || !matches!(ret, model::Ret::Err) {
+                        ctx.sig(SigH::new(0x10a).b(kname.as_bytes()).u(ret.kind_id()).u(crate::refspec::class_seq_hash(0, a, 0)).fin());
+                    }
+                    if let Some(f) = fails.first() {
+                        report_history(ctx, st, std::slice::from_ref(&op), f, Some(&likely));
+                    }
+                }
+            }
+        }
+        ctx.evals += n_steps;
+        ctx.count_n("argument-sweep: one-step histories", n_steps);
+        ctx.count_n("argument-sweep: call returned an error", n_err);
+        ctx.count_n("argument-sweep: call accepted the argument", n_ok);
+        ctx.extra.insert("argument_sweep".into(), json!({"arguments": args.len(), "operation_kinds": kinds.len(), "start_values": starts.len()}));
+    }
+    mon::idle();
     ctx.extra.insert(
         "workload".into(),
         json!(format!(
-            "exhaustive: every history of length <= {} over a {}-operation alphabet (valid, boundary and invalid arguments) from {} start values{}; random: {} histories of 30-300 operations with arguments from valid/boundary/invalid pools; after every step: return value vs model, error => unchanged, every getter, is_empty, has_*, ExactSizeIterator len, to_string vs model canonical form, re-parse, single representation",
+            "exhaustive: every history of length <= {} over a {}-operation alphabet (valid, boundary and invalid arguments) from {} start values{}; random: {} histories of 30-300 operations with arguments from valid/boundary/invalid pools; argument sweep: every argument-taking operation as a one-step history with every byte string of length 0-2, boundary-byte strings of length 3{}, and every single-byte substitution of a valid word of every class; after every step: return value vs model, error => unchanged, every getter, is_empty, has_*, ExactSizeIterator len, to_string vs model canonical form, re-parse, single representation",
             if quick { 3 } else { 4 },
             k,
             model::START_VALUES.len(),
             if quick { "" } else { " (length 4 from the first 5 start values, 3 from the rest)" },
-            n * ctx.nshards as u64
+            n * ctx.nshards as u64,
+            if quick { "" } else { " and 4" }
         )),
     );
     ctx.extra.insert("floors".into(), json!({"step:returned-error": 1000, "step:returned-ok": 10000}));
